@@ -1669,6 +1669,19 @@ theorem foldl_join_inside (l : List (Box K)) : ∀ b0 : Box K,
     · exact i2 x hx
 
 
+/-- the event list as `Path::iter` yields it: inside a sub-path every segment starts at the
+current point (`cur`), `begin` sets it -/
+def WellFormed : Option (P K) → List (PEv K) → Prop
+  | _, [] => True
+  | _, PEv.begin p :: r => WellFormed (some p) r
+  | some q, PEv.line f p :: r => f = q ∧ WellFormed (some p) r
+  | some q, PEv.quad f _ p :: r => f = q ∧ WellFormed (some p) r
+  | some q, PEv.cubic f _ _ p :: r => f = q ∧ WellFormed (some p) r
+  | cur, PEv.end_ :: r => WellFormed cur r
+  | none, PEv.line _ _ :: _ => False
+  | none, PEv.quad _ _ _ :: _ => False
+  | none, PEv.cubic _ _ _ _ :: _ => False
+
 end aabb
 
 
